@@ -354,6 +354,9 @@ class Exec(object):
                 elif (cn, attr) in OBJMETHODS or cn in LAT.bases and any((c, attr) in OBJMETHODS for c in LAT.ancestors(cn)):
                     c = next(c for c in LAT.ancestors(cn) if (c, attr) in OBJMETHODS)
                     b = sRef.alloc('function'); sRef.note(b, Bound('objmethod', recv=o, name=attr, cls=c)); outs.append((sRef, ('val', b))); return outs
+            if cn in ('dict', 'list', 'tuple', 'set', 'frozenset', 'OrderedDict', 'Counter', 'Random', 'datetime', 'date', 'timedelta') and not attr.startswith('_') \
+                    and attr not in sRef.heap:
+                raise Unsupported('method or attribute %r of a %s without a model' % (attr, cn))
             outs.append((sRef, ('val', sRef.rd(o, attr))))
         return outs
 
@@ -365,8 +368,12 @@ class Exec(object):
         r = self.hook('cmp', st, op, a, b)
         if r is not None:
             return r
-        if isinstance(op, ast.Is): return [(st, ('val', B(a == b)))]
-        if isinstance(op, ast.IsNot): return [(st, ('val', B(a != b)))]
+        if isinstance(op, (ast.Is, ast.IsNot)):
+            # identity: for None / booleans / references it is equality of the value; two EQUAL str / bytes / number values may or may not be the
+            # same object (interning is an implementation detail; a value that went through a serializer is a distinct object): unknown then
+            scalar = z3.Or(z3.And(Val.is_s(a), Val.is_s(b)), z3.And(Val.is_y(a), Val.is_y(b)), z3.And(Val.is_i(a), Val.is_i(b)), z3.And(Val.is_r(a), Val.is_r(b)))
+            same = z3.And(a == b, z3.Or(z3.Not(scalar), fresh('same_object', z3.BoolSort())))
+            return [(st, ('val', B(same if isinstance(op, ast.Is) else z3.Not(same))))]
         if isinstance(op, ast.Eq): return [(st, ('val', B(self.eq(st, a, b))))]
         if isinstance(op, ast.NotEq): return [(st, ('val', B(z3.Not(self.eq(st, a, b)))))]
         if isinstance(op, (ast.Lt, ast.LtE, ast.Gt, ast.GtE)):
